@@ -34,11 +34,16 @@ type (
 	funcExp struct {
 		name *decl
 		fn   *function
+		bare bool // written without parentheses around it (argument position)
 	} // function expression (name optional)
-	arrow   struct{ fn *function }
+	arrow struct {
+		fn   *function
+		bare bool
+	}
 	classEx struct {
 		name *decl
 		cls  *class
+		bare bool
 	}
 
 	objProp struct {
@@ -140,7 +145,10 @@ type (
 
 // ---------- source text
 
-type printer struct{ sb strings.Builder }
+type printer struct {
+	sb    strings.Builder
+	short []string // names written as shorthand properties ({a}: key and value in one identifier), in source order
+}
 
 func (p *printer) w(s string) { p.sb.WriteString(s) }
 
@@ -168,6 +176,10 @@ func (p *printer) pat(n node) {
 				}
 				if e.key != "" {
 					p.w(e.key + ": ")
+				} else if d, ok := e.target.(*decl); ok {
+					p.short = append(p.short, d.name)
+				} else if r, ok := e.target.(*ref); ok {
+					p.short = append(p.short, r.name)
 				}
 				p.pat(e.target)
 				if e.def != nil {
@@ -308,6 +320,7 @@ func (p *printer) expr(n node) {
 			}
 			if pr.shorthand != nil {
 				p.w(pr.shorthand.name)
+				p.short = append(p.short, pr.shorthand.name)
 			} else if pr.method != nil {
 				if pr.accessor != "" {
 					p.w(pr.accessor + " ")
@@ -327,16 +340,23 @@ func (p *printer) expr(n node) {
 		p.list(x.items, ", ")
 		p.w("]")
 	case *funcExp:
-		p.w("(function")
+		if !x.bare {
+			p.w("(")
+		}
+		p.w("function")
 		if x.name != nil {
 			p.w(" " + x.name.name)
 		}
 		p.params(x.fn)
 		p.w(" ")
 		p.stmts(x.fn.body)
-		p.w(")")
+		if !x.bare {
+			p.w(")")
+		}
 	case *arrow:
-		p.w("(")
+		if !x.bare {
+			p.w("(")
+		}
 		p.params(x.fn)
 		p.w(" => ")
 		if x.fn.expr != nil {
@@ -344,14 +364,21 @@ func (p *printer) expr(n node) {
 		} else {
 			p.stmts(x.fn.body)
 		}
-		p.w(")")
+		if !x.bare {
+			p.w(")")
+		}
 	case *classEx:
-		p.w("(class")
+		if !x.bare {
+			p.w("(")
+		}
+		p.w("class")
 		if x.name != nil {
 			p.w(" " + x.name.name)
 		}
 		p.class(x.cls)
-		p.w(")")
+		if !x.bare {
+			p.w(")")
+		}
 	default:
 		panic(fmt.Sprintf("expr %T", n))
 	}
@@ -494,6 +521,12 @@ func (p *printer) stmt(n node) {
 }
 
 func source(prog []node) string {
+	s, _ := sourceShort(prog)
+	return s
+}
+
+// sourceShort also returns the names written as shorthand properties, in source order
+func sourceShort(prog []node) (string, []string) {
 	p := &printer{}
 	for i, s := range prog {
 		if i > 0 {
@@ -501,5 +534,5 @@ func source(prog []node) string {
 		}
 		p.stmt(s)
 	}
-	return p.sb.String()
+	return p.sb.String(), p.short
 }
